@@ -274,6 +274,18 @@ def run(tier, seed, replay=None):
     raw3.source, raw3.kind, raw3.bindings, raw3.type_name = GADGET_PARAM_QML, "value-class-callback-parameters", [], "MyType"
     raw3.drop_rejected = lambda diags: []
     docs.append(raw3)
+    # values without a C++ type of their own (`[]`, `null`, untyped literals) where a value is discarded: as the whole handler, as an
+    # expression statement, under `as void`, as the unused completion value of a branch; each shape is its own document (translated, it must compile)
+    for shape in ("onClicked: []", "onClicked: { []; }", "onClicked: null", "onClicked: { null; 1; \"s\"; 1.5; true }",
+                  "onClicked: { if (checked) { [] } else { null } }", "onClicked: ([] as void)", "onClicked: (null as void)",
+                  "onClicked: { (1 as void); (\"s\" as void); (cb.checked as void) }", "onToggled: function(on: bool) { on ? [] : [] }",
+                  "onClicked: { switch (text) { case \"a\": []; break; default: null } }", "text: { ([] as void); return cb.text }",
+                  "text: { (null as void); (cb.checked as void); cb.text }", "onClicked: [cb][0]", "onClicked: { [cb, null]; [[], [1]] }"):
+        rw = Raw()
+        rw.source = "import qmluic.QtWidgets\nQWidget {\n    QCheckBox { id: cb }\n    QPushButton {\n        %s\n    }\n}\n" % shape
+        rw.kind, rw.bindings, rw.type_name = "untyped-discarded", [], "MyType"
+        rw.drop_rejected = lambda diags: []
+        docs.append(rw)
     if replay:
         rp = json.load(open(replay))
         docs = [d for d in docs if d.source == rp.get("qml")]
